@@ -225,15 +225,48 @@ def scripts(tier, seed, scale=1):
         lines += ["eq take 100000", "eq more", "eq term"]
         finish(lines)
         out.append(("wrap:%s:%d" % (codec, k), lines))
+    # ---- stream 6: message removal (mpt_queue_push(qu, k, NULL)) on wrapped sender rings
+    r = gen.rng(id, tier, seed, "del")
+    nd = (150 if tier == "quick" else 2500) * scale
+    for k in range(nd):
+        codec = r.choice(CODECS + ["raw"])
+        emax = r.choice([12, 16, 24, 40, 64])
+        lines = new_lines(codec, emax, off_choice(r, emax), 64, r.randrange(64), r.randrange(16))
+        for _ in range(r.choice([3, 6, 10])):
+            n = r.choice([0, 0, 1, 1, 2, 3, 5])
+            p0 = r.choice([0.0, 0.3, 0.6])
+            m = [0 if r.random() < p0 else r.choice([1, 7, 0xe0, 0xff, r.randrange(1, 256)]) for _ in range(n)]
+            if m:
+                lines.append("eq push " + gen.hexs(m))
+            ev = r.random()
+            if ev < 0.35:
+                # give up the message in progress, sometimes finished ones with it
+                lines.append("eq del %d" % r.choice([1, 1, 1, 2, 3, 4]))
+            elif ev < 0.8:
+                lines += ["eq more", "eq term"]
+                if r.random() < 0.3:
+                    lines.append("eq del %d" % r.choice([1, 1, 2, 3, 5]))
+            if r.random() < 0.4:
+                lines.append("eq take %d" % r.choice([1, 2, 3, 4, 7, 100000]))
+            if r.random() < 0.15:
+                lines.append("eq align %d" % r.randrange(emax + 1))
+        lines += ["eq del 1", "eq take 100000"]
+        finish(lines)
+        out.append(("del:%s:%d" % (codec, k), lines))
     # ---- stream 5: the stream glue (mpt_stream_push/flush/poll/dispatch) over socket pairs, spec comparison only
     r = gen.rng(id, tier, seed, "glue")
-    ng = (60 if tier == "quick" else 800) * scale
+    ng = (90 if tier == "quick" else 1200) * scale
     for k in range(ng):
         codec = r.choice(CODECS)
-        lines = ["st new " + codec]
+        # receiver: mpt_stream_dispatch on a plain stream, the input object (stream_input.c), waiting commands (stream_sync.c)
+        mode = ("", " input", " wait")[k % 3]
+        lines = ["st new " + codec + mode]
         how = r.choice(["bytes", "rand", "rand", "all"])
         for _ in range(r.choice([1, 2, 3, 6])):
             m = small_messages(r, codec, 1)[0] if (how == "bytes" or r.random() < 0.5) else c01.structured(r, codec)[:r.choice([40, 300, 1200])]
+            if mode == " wait":
+                # replies: the id byte with the reply bit (ids 1..12; 0 would use up the fallback command)
+                m = [0x80 | r.randint(1, 12)] + list(m)
             for c in (c01.chunkings(r, m, r.choice(["one", "rand"])) if m else []):
                 lines.append("st push " + gen.hexs(c))
             lines.append("st term")
@@ -242,18 +275,20 @@ def scripts(tier, seed, scale=1):
                 n = c01.enc_len(codec, len(m)) + 1
                 while n > 0 and r.random() < 0.8:
                     d = 1 if how == "bytes" else r.choice([1, 2, 3, 7, 20, 64, 65, 300]) if how == "rand" else 100000
-                    lines += ["st deliver %d" % d, "st poll", "st dispatch"]
+                    lines += ["st deliver %d" % d, "st poll"] + (["st skip"] if mode != " wait" and r.random() < 0.1 else []) + ["st dispatch"]
                     n -= d
         lines += ["st flush", "st deliver 1000000", "st poll", "st dispatch", "st sync"]
-        out.append(("glue:%s:%d" % (codec, k), lines))
+        out.append(("glue%s:%s:%d" % (mode.replace(" ", "-"), codec, k), lines))
     # full blocks that end exactly at the end of the write queue (the encoder takes a byte back and consumes nothing)
     for codec in CODECS:
         full = 222 if "zpe" in codec else 254
         for n1 in range(full - 2, full + 3):
             for n2 in (full - 1, full, full + 46):
-                lines = ["st new " + codec, "st push " + gen.hexs([7] * n1), "st term", "st push " + gen.hexs([9] * n2), "st term",
-                         "st flush", "st deliver 300", "st poll", "st dispatch", "st deliver 1000000", "st poll", "st dispatch", "st sync"]
-                out.append(("glue-full:%s:%d:%d" % (codec, n1, n2), lines))
+                for mode in ("", " input", " wait"):
+                    lines = ["st new " + codec + mode, "st push " + gen.hexs([0x87 if mode == " wait" else 7] + [7] * (n1 - 1)), "st term",
+                             "st push " + gen.hexs([0x89 if mode == " wait" else 9] + [9] * (n2 - 1)), "st term",
+                             "st flush", "st deliver 300", "st poll", "st dispatch", "st deliver 1000000", "st poll", "st dispatch", "st sync"]
+                    out.append(("glue-full%s:%s:%d:%d" % (mode.replace(" ", "-"), codec, n1, n2), lines))
     return out
 
 
